@@ -431,12 +431,16 @@ type vEngine struct {
 	handlers []*vHandlerState
 	timeouts int
 	tagKeys  map[interface{}]string
+	baseG    int // goroutines of the library alive before this engine existed (leaked by earlier cases)
+	baseDump map[string]int
 }
 
 type vCtxKey string
 
 func newEngine(c vCase) *vEngine {
 	e := &vEngine{ev: &vEvents{}, hooks: &vHooks{parks: map[string]*vPark{}}, calls: map[string]*vCallState{}}
+	e.baseG = vLibGoroutines()
+	e.baseDump = vLibGoroutineSigs()
 	e.conn = newSimConn(e.ev)
 	max, _ := strconv.ParseInt(c.get("max"), 10, 32)
 	if max == 0 {
@@ -484,7 +488,7 @@ func newEngine(c vCase) *vEngine {
 					mname := string(vUnhex(m))
 					full := makeMethodName(name, mname)
 					methods[mname] = ServeHandlerDescription{
-						MakeArg: func() interface{} { return new(interface{}) },
+						MakeArg: func() interface{} { e.hooks.hit("MakeArg"); return new(interface{}) },
 						Handler: func(ctx context.Context, arg interface{}) (interface{}, error) { return e.handle(ctx, full, arg) },
 					}
 				}
@@ -569,7 +573,7 @@ func (e *vEngine) settle() {
 			time.Sleep(20 * time.Microsecond)
 		}
 		n := atomic.LoadInt64(&e.ev.n)
-		if n == last && e.conn.allConsumed() {
+		if n == last && (e.conn.allConsumed() || !e.xp.IsConnected()) {
 			stable++
 		} else {
 			stable = 0
@@ -692,6 +696,10 @@ func (e *vEngine) op(f []string) {
 		e.conn.feed(vUnhex(f[1]), sizes)
 		e.srv.Run()
 		e.waitFor("feed-consumed", func() bool { return e.conn.allConsumed() || !e.xp.IsConnected() })
+	case "feednowait": // feednowait/<hex>
+		e.ev.add("feed/%s", f[1])
+		e.conn.feed(vUnhex(f[1]), nil)
+		e.srv.Run()
 	case "waitwrites": // waitwrites/<n>
 		n, _ := strconv.Atoi(f[1])
 		e.waitFor("writes>="+f[1], func() bool { return e.conn.numWrites() >= n })
@@ -724,6 +732,17 @@ func (e *vEngine) op(f []string) {
 			}
 			e.waitFor("hret/"+f[1], func() bool { return e.ev.count("hret/"+f[1]) > 0 })
 		}
+	case "finishall": // release every handler that exists and has not been released yet
+		e.hmu.Lock()
+		hs := append([]*vHandlerState(nil), e.handlers...)
+		e.hmu.Unlock()
+		for _, h := range hs {
+			select {
+			case h.release <- [2]string{"-", "-"}:
+			default:
+			}
+		}
+		e.waitFor("all-handlers-returned", func() bool { return e.ev.count("hret/") >= len(hs) })
 	case "close":
 		e.ev.add("close-begin")
 		done := make(chan struct{})
@@ -741,6 +760,7 @@ func (e *vEngine) op(f []string) {
 		})
 		e.ev.add("close-end")
 	case "readerr": // readerr/<eof|op|other>
+		e.ev.add("readerr/%s", f[1])
 		e.conn.setReadErr(vEndErr(f[1]))
 		e.srv.Run()
 	case "writefail": // writefail/<after total bytes>
@@ -797,6 +817,11 @@ func (e *vEngine) op(f []string) {
 	case "sample": // sample/<tag>
 		e.settle()
 		e.ev.add("sample/%s/%s", f[1], e.sample())
+		if !e.xp.IsConnected() {
+			if d := e.dumpDelta(); d != "" {
+				e.ev.add("dump/%s", strings.ReplaceAll(strings.ReplaceAll(strings.ReplaceAll(d, "/", "|"), ";", ","), " ", "_"))
+			}
+		}
 	case "setseq": // white-box: next seqno
 		n, _ := strconv.ParseInt(f[1], 10, 64)
 		e.tr.calls.seqMtx.Lock()
@@ -839,7 +864,7 @@ func (e *vEngine) sample() string {
 		hs = append(hs, fmt.Sprintf("%d=%s", h.id, st))
 	}
 	e.hmu.Unlock()
-	return fmt.Sprintf("done=%s,connected=%s,err=%s,pending=%d,goroutines=%d,handlers=%s", done, conn, vErrClass(e.srv.Err()), pending, vLibGoroutines(), strings.Join(hs, "+"))
+	return fmt.Sprintf("done=%s,connected=%s,err=%s,pending=%d,goroutines=%d,handlers=%s", done, conn, vErrClass(e.srv.Err()), pending, vLibGoroutines()-e.baseG, strings.Join(hs, "+"))
 }
 
 // goroutines whose stack contains a frame of the library package (other than the harness itself)
@@ -862,23 +887,41 @@ func vLibGoroutines() int {
 	return cnt
 }
 
-func vLibGoroutineDump() string {
-	buf := make([]byte, 1<<20)
+// signatures (innermost library frames) of the library's goroutines, with multiplicities
+func vLibGoroutineSigs() map[string]int {
+	buf := make([]byte, 4<<20)
 	n := runtime.Stack(buf, true)
-	var res []string
+	res := map[string]int{}
 	for _, g := range strings.Split(string(buf[:n]), "\n\n") {
-		if strings.Contains(g, "go-framed-msgpack-rpc/rpc.(*") && !strings.Contains(g, "runtime.Stack") {
-			lines := strings.Split(g, "\n")
-			var fn []string
-			for _, l := range lines {
-				if strings.Contains(l, "rpc.(*") || strings.Contains(l, "rpc.") && !strings.HasPrefix(l, "\t") {
-					fn = append(fn, strings.TrimSpace(strings.SplitN(l, "(0x", 2)[0]))
+		lib := false
+		var fn []string
+		for _, l := range strings.Split(g, "\n") {
+			if strings.Contains(l, "go-framed-msgpack-rpc/rpc.") && !strings.HasPrefix(l, "\t") && !strings.HasPrefix(l, "created by") {
+				name := strings.TrimSpace(strings.SplitN(l, "(0x", 2)[0])
+				name = name[strings.LastIndex(name, "/")+1:]
+				if strings.HasPrefix(name, "rpc.v") || strings.HasPrefix(name, "rpc.(*v") || strings.HasPrefix(name, "rpc.TestVerif") ||
+					strings.HasPrefix(name, "rpc.newEngine") || strings.HasPrefix(name, "rpc.(*simConn)") {
+					continue
+				}
+				lib = true
+				if len(fn) < 2 {
+					fn = append(fn, strings.TrimSuffix(name, "(...)"))
 				}
 			}
-			if len(fn) > 3 {
-				fn = fn[:3]
-			}
-			res = append(res, strings.Join(fn, "<"))
+		}
+		if lib {
+			res[strings.Join(fn, "<")]++
+		}
+	}
+	return res
+}
+
+func (e *vEngine) dumpDelta() string {
+	now := vLibGoroutineSigs()
+	var res []string
+	for k, n := range now {
+		if d := n - e.baseDump[k]; d > 0 {
+			res = append(res, fmt.Sprintf("%dx%s", d, k))
 		}
 	}
 	sort.Strings(res)
